@@ -341,7 +341,9 @@ pub fn fire(node: NodeId, which: Which, ctx: FireCtx) {
             Some(Caught::Injected) | Some(Caught::Overflow) => {}
             Some(Caught::Other(m)) => {
                 w.emit(Ev::Caught { whence: "waker: panic" });
-                w.flag("c01.wake_panic", || format!("invoking a waker of n{node} panicked: {m}"));
+                if crate::exec::PANIC_IS_VIOLATION.contains(&w.prop) {
+                    w.flag_current("wake_panic", || format!("invoking a waker of n{node} panicked: {m}"));
+                }
             }
         }
         crate::oracle::after_fire(w, node);
